@@ -23,12 +23,24 @@ pub fn to_threshold(rule: Rule) -> Threshold {
     }
 }
 
+/// expiry kinds: 0 = AtHeight(100), 1 = AtTime(whole second), 2 = AtTime(with a sub-second part)
 fn mk(rule: Rule, total: u64, t: Tally) -> Proposal {
+    mk_k(rule, total, t, 0)
+}
+
+const T_WHOLE: u64 = 1_700_000_000_000_000_000;
+const T_FRAC: u64 = 1_700_000_000_640_000_000;
+
+fn mk_k(rule: Rule, total: u64, t: Tally, kind: u8) -> Proposal {
     Proposal {
         title: "t".into(),
         description: "d".into(),
         start_height: 10,
-        expires: Expiration::AtHeight(100),
+        expires: match kind {
+            0 => Expiration::AtHeight(100),
+            1 => Expiration::AtTime(Timestamp::from_nanos(T_WHOLE)),
+            _ => Expiration::AtTime(Timestamp::from_nanos(T_FRAC)),
+        },
         msgs: vec![],
         status: Status::Open,
         threshold: to_threshold(rule),
@@ -45,11 +57,29 @@ fn mk(rule: Rule, total: u64, t: Tally) -> Proposal {
 }
 
 fn block(expired: bool) -> BlockInfo {
-    BlockInfo {
-        height: if expired { 100 } else { 99 },
-        time: Timestamp::from_seconds(1_700_000_000),
-        chain_id: "c".into(),
-    }
+    block_k(expired, 0, 0)
+}
+
+/// `near`: 0 = one whole unit before/at the expiry, 1 = the closest instant (1 ns before / exactly at),
+/// 2 = same whole second as the expiry but before it (only meaningful for kind 2)
+fn block_k(expired: bool, kind: u8, near: u8) -> BlockInfo {
+    let (height, time) = match kind {
+        0 => (if expired { 100 } else { 99 }, 1_600_000_000_000_000_000),
+        1 => (50, if expired { T_WHOLE + if near == 1 { 0 } else { 1_000_000_000 } } else { T_WHOLE - if near == 1 { 1 } else { 1_000_000_000 } }),
+        _ => (
+            50,
+            if expired {
+                T_FRAC + if near == 1 { 0 } else { 360_000_000 }
+            } else {
+                match near {
+                    1 => T_FRAC - 1,
+                    2 => T_FRAC - 600_000_000, // same whole second, earlier
+                    _ => T_FRAC - 1_000_000_000,
+                }
+            },
+        ),
+    };
+    BlockInfo { height, time: Timestamp::from_nanos(time), chain_id: "c".into() }
 }
 
 const GRID_P: [u128; 9] = [
@@ -76,9 +106,25 @@ const GRID_Q: [u128; 9] = [
 ];
 
 fn one_case(h: &mut Hist, rule: Rule, total: u64, t: Tally, expired: bool) -> bool {
+    // spread the cases over expiry kinds and instants (deterministically from the case itself)
+    let mix = (total ^ t.yes.rotate_left(7) ^ t.no.rotate_left(13) ^ t.abstain.rotate_left(29) ^ (expired as u64)) % 7;
+    let (ek, near) = match mix {
+        0 | 1 | 2 => (0u8, 0u8),
+        3 => (1, 1),
+        4 => (2, 1),
+        5 => (2, 2),
+        _ => (2, 0),
+    };
+    let _ = (mk, block);
+    if ek != 0 {
+        h.out.count("cases_with_time_based_expiry");
+        if ek == 2 && near == 2 && !expired {
+            h.out.count("cases_in_the_same_second_before_a_time_expiry");
+        }
+    }
     let kind = rule_kind(rule);
-    let p = mk(rule, total, t);
-    let b = block(expired);
+    let p = mk_k(rule, total, t, ek);
+    let b = block_k(expired, ek, near);
     let lib = catch_unwind(AssertUnwindSafe(|| {
         (p.is_passed(&b), p.is_rejected(&b), p.current_status(&b))
     }));
@@ -259,6 +305,8 @@ impl Monitor for C04 {
             "early_pass_decisions_checked",
             "early_reject_decisions_checked",
             "tallies_at_requirement_boundary",
+            "cases_with_time_based_expiry",
+            "cases_in_the_same_second_before_a_time_expiry",
         ]
     }
     fn exhaustive_part(&self) -> Option<&'static str> {
